@@ -95,3 +95,21 @@ impl<'a> PathArg for &'a PathBuf {
     #[verifier::external_body]
     fn as_ref(&self) -> (r: &PathBuf) { unimplemented!() }
 }
+
+// exec view of std::path::Component<'_> and the iteration / push operations used by Memfs::_mkdir_m
+#[verifier::external_body]
+pub struct Component { x: u8 }
+impl Component { pub uninterp spec fn view(&self) -> Comp; }
+impl PathBuf {
+    // ASSUMED[path-components]: components() yields comps() in order
+    #[verifier::external_body]
+    pub fn components(&self) -> (r: DeIter<Component>)
+        ensures r.rest().len() == self.comps().len(), forall|i: int| 0 <= i < r.rest().len() ==> (#[trigger] r.rest()[i])@ == self.comps()[i]
+    { unimplemented!() }
+    // ASSUMED[pathbuf-ops]: push of RootDir onto an empty path gives "/", push of a Normal name onto an absolute clean path appends it
+    #[verifier::external_body]
+    pub fn push(&mut self, c: Component)
+        ensures (old(self).comps().len() == 0 && c@ == Comp::RootDir) ==> final(self).abs_clean() && final(self)@ == root() && final(self).comps() == abs_comps(root()),
+                (old(self).abs_clean() && c@ is Normal) ==> final(self).abs_clean() && final(self)@ == old(self)@.push(c@->Normal_0) && final(self).comps() == abs_comps(final(self)@),
+    { unimplemented!() }
+}
